@@ -245,11 +245,25 @@ func (e *Env) RunFeeds(c FeedCase, opt RunOpt) *FeedResult {
 	// checkRetained compares what the parser holds back after a Parse call with the input: the
 	// cache is always the unconsumed tail of everything fed so far (on the error returns too: they
 	// leave the appended cache as it is), so its bytes are known. fed = bytes handed to Parse so far.
-	checkRetained := func(fed int) {
-		if out.ContentOff || parser.VerifParserClosed() {
+	checkRetained := func(fed int, readBuf []byte) {
+		if parser.VerifParserClosed() {
 			return // a closed parser keeps its released cache pointer and never looks at it again
 		}
-		if h := parser.VerifCachedHandle(); h != nil && !t.IsLive(h) {
+		// the engine reuses its read buffer for the next read: nothing the parser keeps may lie in it
+		if h := parser.VerifCachedHandle(); h != nil && track.Overlaps(*h, readBuf) {
+			t.Note("read-buffer-retained", "read-buffer-retained use=Parser.bytesCached",
+				fmt.Sprintf("the parser's carry-over cache lies in the read buffer the caller passed to Parse and reuses for the next read (after Parse call %d)", out.Reads))
+		}
+		for _, b := range parser.VerifPendingBody() {
+			if track.Overlaps(b, readBuf) {
+				t.Note("read-buffer-retained", "read-buffer-retained use=Parser.pendingBody",
+					fmt.Sprintf("a body buffer of the message under assembly lies in the read buffer the caller passed to Parse and reuses for the next read (after Parse call %d)", out.Reads))
+			}
+		}
+		if out.ContentOff {
+			return
+		}
+		if h := parser.VerifCachedHandle(); h != nil && t.IsFreed(h) {
 			// a pointer to a released buffer that is kept but (so far) not used is not a violation; the
 			// next read would be (append-after-free)
 			out.DanglingCache++
@@ -257,17 +271,13 @@ func (e *Env) RunFeeds(c FeedCase, opt RunOpt) *FeedResult {
 			out.TailChecks++
 			want := c.Stream[fed-len(cached) : fed]
 			if !bytes.Equal(cached, want) {
-				poisonAt, scribble, other := -1, -1, -1
+				poisonAt, other := -1, -1
 				for i := range cached {
 					switch {
 					case cached[i] == want[i]:
 					case cached[i] == track.PoisonByte:
 						if poisonAt < 0 {
 							poisonAt = i
-						}
-					case cached[i] == scribbleByte:
-						if scribble < 0 {
-							scribble = i
 						}
 					case cached[i] == track.StaleByte && opt.Policy == track.Stale:
 						out.StaleSeen++
@@ -278,10 +288,6 @@ func (e *Env) RunFeeds(c FeedCase, opt RunOpt) *FeedResult {
 				detail := fmt.Sprintf(" after Parse call %d (%d bytes fed; cache %q, input tail %q)", out.Reads, fed, abbreviate(cached, 48), abbreviate(want, 48))
 				if poisonAt >= 0 {
 					poison(cached, "Parser.bytesCached", detail)
-				}
-				if scribble >= 0 {
-					t.Note("read-buffer-retained", "read-buffer-retained use=Parser.bytesCached",
-						"the parser's carry-over cache changes when the caller reuses the read buffer it passed to Parse (the cache aliases memory the parser does not own)"+detail)
 				}
 				if other >= 0 {
 					out.TailDiffs++
@@ -335,10 +341,11 @@ func (e *Env) RunFeeds(c FeedCase, opt RunOpt) *FeedResult {
 				if after := parser.VerifCachedLen(); hadCache && err == nil && !parser.VerifParserClosed() && after > 0 && after < before+len(seg) {
 					out.ReplaceReads++
 				}
-				checkRetained(fed)
+				checkRetained(fed, buf)
 			}
 			if err != nil {
-				reported("Parse error text", err.Error())
+				// error texts often quote the offending bytes (%q): look for the escaped form too
+				reported("Parse error text", strings.NewReplacer(`\xdd`, "\xdd", `\xDD`, "\xdd").Replace(err.Error()))
 				out.Errs = append(out.Errs, err.Error())
 				if !closed {
 					// the engine closes the connection on a parse error and feeds nothing more
